@@ -21,8 +21,8 @@ var aliasActualToCanon = map[string]string{}
 
 type roleSpec struct {
 	Canon string
-	Pkg   string                     // short package path the function must live in
-	Recv  string                     // receiver type name ("" = plain function, "*" = any)
+	Pkg   string                      // short package path the function must live in
+	Recv  string                      // receiver type name ("" = plain function, "*" = any)
 	Pred  func(p *Prog, f *Func) bool // structural signature
 }
 
@@ -38,6 +38,7 @@ func bodyHas(f *Func, pred func(info *types.Info, n ast.Node) bool) bool {
 		}
 		return !found
 	})
+
 	return found
 }
 
